@@ -312,6 +312,26 @@ func cadence(c *an.Ctx) {
 				if fl, _, ok := mapFieldOfTerm(t); ok && fl == "equipmentReportsOffset" {
 					ero = t
 				}
+				// a loop-carried copy (for now := clock(); ...; now = clock()): every value that reaches the join is a
+				// read of the clock, or every value is a read of the offset
+				if ph, isPhi := t.Val.(*ssa.Phi); isPhi && t.K == an.KPhi && len(ph.Edges) > 0 {
+					allNow, allEro := true, true
+					for _, e := range ph.Edges {
+						et := fi.Term(e)
+						if !strings.HasSuffix(et.Callee(), "glow.CurrentTimeslot") {
+							allNow = false
+						}
+						if fl, _, ok := mapFieldOfTerm(et); !ok || fl != "equipmentReportsOffset" {
+							allEro = false
+						}
+					}
+					if allNow {
+						now = t
+					}
+					if allEro {
+						ero = t
+					}
+				}
 			})
 		}
 		if now == nil || ero == nil {
@@ -378,6 +398,15 @@ func cadence(c *an.Ctx) {
 			c.Check(trigger == 3200, "CADENCE", caller, site.Pos(), key, "the periodic loop rotates when now - offset > 3200 (int64 arithmetic, no wrap-around at the uint32 extremes)", fmt.Sprintf("guards hold exactly for now - offset >= %d; %s", thr, factsText(rel)))
 		} else {
 			catchup = thr
+			// "while": the rotation call sits in a loop that goes round until the guard fails (one rotation advances the
+			// window by one week only; after a long downtime several are needed before the server may serve)
+			inNatLoop := false
+			for _, l := range loopsOf(caller) {
+				if l.body[site.Block()] {
+					inNatLoop = true
+				}
+			}
+			c.Check(inNatLoop, "CADENCE", caller, site.Pos(), an.KeyOf(caller, "catchup-repeats"), "the start-up catch-up repeats the rotation until now - offset < 4000 (it is a loop, not a single step)", "rotation call inside a loop of the start-up function")
 			c.Check(catchup == 4000, "CADENCE", caller, site.Pos(), key, "the start-up catch-up rotates while now - offset >= 4000", fmt.Sprintf("guards hold exactly for now - offset >= %d; %s", thr, factsText(rel)))
 		}
 	}
